@@ -34,6 +34,9 @@ type RTap struct {
 	// FailErr: the error the failing Reads return instead of ErrInjected (for instance io.ErrUnexpectedEOF, which is what gzip,
 	// tar and HTTP bodies shorter than announced return for cut input: an error other than io.EOF)
 	FailErr error
+	// OnFail is called once, right before the tap returns its failure for the first time (a supervisor that cancels everything when
+	// the connection reports an error)
+	OnFail  func()
 	failed  bool
 	Calls   int // maintained by the harness: index of the API call in progress
 	Log     []ReadRec
@@ -75,6 +78,13 @@ func (t *RTap) Read(p []byte) (int, error) {
 	return n, err
 }
 
+func (t *RTap) fail() {
+	if !t.failed && t.OnFail != nil {
+		t.OnFail()
+	}
+	t.failed = true
+}
+
 func (t *RTap) failErr() error {
 	if t.FailErr != nil {
 		return t.FailErr
@@ -87,7 +97,7 @@ func (t *RTap) read(p []byte) (int, error) {
 		return 0, nil
 	}
 	if t.FailAt >= 0 && t.Pos >= t.FailAt && !(t.FailOnce && t.failed) {
-		t.failed = true
+		t.fail()
 		return 0, t.failErr()
 	}
 	if t.Pos >= len(t.Data) {
@@ -113,7 +123,7 @@ func (t *RTap) read(p []byte) (int, error) {
 	copy(p, t.Data[t.Pos:t.Pos+n])
 	t.Pos += n
 	if withErr {
-		t.failed = true
+		t.fail()
 		return n, t.failErr()
 	}
 	if t.EOFWithData && t.Pos >= len(t.Data) {
